@@ -1,6 +1,7 @@
 (** Evaluator glue for C18: runs the model on what the harness ran the real
     code on. *)
 From AGH Require Import Base.Run Model.Schedule.
+From AGH Require Model.ClientIndex Model.ClientConfig.
 From AGH Require Export Model.ScheduleText Model.BlockedSvcHttp Model.BlockedSvcClient Model.ScheduleZone
   Model.BlockedSvcPersist.
 Local Open Scope Z_scope.
@@ -101,7 +102,13 @@ Inductive case :=
      ConfigModified callback writes the configuration as home does, and
      filtering.New from what was written *)
   | CLife (known init_ids : list bytes) (init_zone : bytes) (init_days : list (Z * Z))
-      (instants : list Z) (obs0 : life_obs) (steps : list life_step).
+      (instants : list Z) (obs0 : life_obs) (steps : list life_step)
+  (* round 8: the clients section of the configuration file.  Per client
+     (in RangeByName order) what the REAL storage held before forConfig: uses
+     the global blocked services?, own ids, zone (index into the harness's
+     zone list; 0 = Local), ranges in ns; and the same read from the second
+     container, initialised from the written section *)
+  | CClientCfg (known : list bytes) (clients obs : list (bool * list bytes * N * list (Z * Z))).
 
 Definition eqb_zz (a b : Z * Z) := (fst a =? fst b) && (snd a =? snd b).
 
@@ -320,6 +327,54 @@ Definition life_case_bad (known ids : list bytes) (zone : bytes) (days : list (Z
   let '(ok, cur, curp) := life_obs_ok known instants st_ok l None None o0 in
   if ok then life_first_bad known instants l cur curp steps 1 else 0.
 
+(** C04's model of one object of the clients section ([to_persistent] after
+    [for_config] after [to_persistent]); the fields the harness does not vary
+    are fixed. *)
+Definition ccfg_obj (i : N) (d : bool * list bytes * N * list (Z * Z)) : Model.ClientConfig.cobj :=
+  let '(ug, ids, z, days) := d in
+  {| Model.ClientConfig.o_name := [99%N; (48 + i)%N];
+     Model.ClientConfig.o_ids := [Model.ClientConfig.PCid [99%N; (48 + i)%N]];
+     Model.ClientConfig.o_tags := []; Model.ClientConfig.o_upstreams := [];
+     Model.ClientConfig.o_uid := (i + 1)%N;
+     Model.ClientConfig.o_ss := Model.ClientConfig.zero_ss;
+     Model.ClientConfig.o_blocked :=
+       Some {| Model.ClientConfig.fb_ids := ids;
+               Model.ClientConfig.fb_sched := Some (map (fun p => mk (fst p) (snd p)) days, z) |};
+     Model.ClientConfig.o_cache_size := 0%N; Model.ClientConfig.o_cache_enabled := false;
+     Model.ClientConfig.o_use_global_settings := true; Model.ClientConfig.o_filtering := false;
+     Model.ClientConfig.o_parental := false; Model.ClientConfig.o_safebrowsing := false;
+     Model.ClientConfig.o_use_global_blocked := ug;
+     Model.ClientConfig.o_ignore_qlog := false; Model.ClientConfig.o_ignore_stats := false |}.
+
+Definition ccfg_model (known : list bytes) (i : N) (d : bool * list bytes * N * list (Z * Z))
+  : option (bool * list bytes * N * list (Z * Z)) :=
+  match Model.ClientConfig.to_persistent known 0%N (ccfg_obj i d) with
+  | Model.ClientConfig.COk c x =>
+      match Model.ClientConfig.to_persistent known 0%N (Model.ClientConfig.for_config c x) with
+      | Model.ClientConfig.COk c' _ =>
+          match Model.ClientIndex.c_blocked c' with
+          | Some b => Some (negb (Model.ClientIndex.c_own_blocked c'), Model.ClientIndex.b_ids b,
+                            Model.ClientIndex.b_zone b, marshal_yaml (Model.ClientIndex.b_sched b))
+          | None => None
+          end
+      | _ => None
+      end
+  | _ => None
+  end.
+
+Definition eqb_ccfg (a b : bool * list bytes * N * list (Z * Z)) : bool :=
+  let '(u1, i1, z1, d1) := a in let '(u2, i2, z2, d2) := b in
+  Bool.eqb u1 u2 && eqb_list eqb_bytes i1 i2 && N.eqb z1 z2 && eqb_list eqb_zz d1 d2.
+
+Fixpoint ccfg_ok (known : list bytes) (i : N) (cl obs : list (bool * list bytes * N * list (Z * Z))) : bool :=
+  match cl, obs with
+  | [], [] => true
+  | d :: cl, o :: obs =>
+      match ccfg_model known i d with Some m => eqb_ccfg m o | None => false end &&
+      ccfg_ok known (i + 1)%N cl obs
+  | _, _ => false
+  end.
+
 Definition case_ok (c : case) : bool :=
   match c with
   | CContains t o w obs =>
@@ -363,6 +418,7 @@ Definition case_ok (c : case) : bool :=
       end
   | CLife known ids zone days instants o0 steps =>
       life_case_bad known ids zone days instants o0 steps =? -1
+  | CClientCfg known cl obs => ccfg_ok known 0%N cl obs
   end.
 
 Definition mismatches := Base.Run.mismatches case_ok.
@@ -404,4 +460,10 @@ Definition explain (c : case) :=
   | CLife known ids zone days instants o0 steps =>
       (life_case_bad known ids zone days instants o0 steps,
        life_trace known (ylife_init (http_init ids zone days)) steps)
+  | CClientCfg known cl obs =>
+      (Z.b2z (ccfg_ok known 0%N cl obs),
+       map (fun d => match ccfg_model known 0%N d with
+                     | Some (_, ids, z, _) => (Z.of_N z, Z.of_nat (length ids))
+                     | None => (-1, -1)
+                     end) cl)
   end.
